@@ -446,6 +446,9 @@ def check(ctx):
     ctx.rule("R9", "what is presented follows the block: a sensor on a temperature item (with its unit item) and one on a byte item, after the block is replaced and every item notified the way the structure does it - unit flip with the word unchanged, word change, byte change - present exactly what the items decode from the new block")
     presented_value_follows_the_block(ctx, repo, "R9")
     # ---- R7 presentation is pass-through -----------------------------------------------------------
+    ctx.rule("R11", "the unit setting consulted is THIS spa's: a temperature item finds its unit through the structure's item dictionary on every read and write, so that dictionary must be the structure's own - no driver class keeps a class-level container that its methods fill through `self` (one object for every structure in the process: spa A's temperatures would be converted with spa B's unit) (C10.R8 borrowed)")
+    from .c10 import shared_class_state as _scs14
+    _scs14(ctx.borrowed("R11", "C10"), repo, "R8", only_under="/driver/")
     ctx.rule("R7", "what the heater presents is the converted reading itself: current / target / real target temperature of a GeckoWaterHeater built by its own constructor equal, bit for bit, the value its temperature item decodes (raw/18 is not a whole tenth for 17 words out of 18: any rounding on the way makes write-what-you-read land on another word)")
     interp = Interp(repo)
     n_pt = 0
